@@ -112,7 +112,7 @@ impl Communicator {
         ensures r is Ok ==> r->Ok_0.0.is_some() == old(self).out_piped@ && r->Ok_0.1.is_some() == old(self).err_piped@, *final(self) == *old(self),
             // an unlimited read that succeeds has delivered all input (and closed stdin) and seen end-of-file on every captured stream
             // (unit comm): no child can be blocked on these ends any more.  A failed read leaves them as they were.
-            r is Ok ==> final(w).s == (BW { parked: old(w).s.parked.difference(old(self).ends@), ..old(w).s }),
+            r is Ok ==> final(w).s == (BW { parked: old(w).s.parked.difference(old(self).ends@), full_reads: old(w).s.full_reads + 1, ..old(w).s }),
             r is Err ==> final(w).s == old(w).s,
     { unimplemented!() }
 }
